@@ -72,6 +72,22 @@ std::vector<Base> make_bases(Ctx &cx, bool all) {
           b.F = e.out;
           out.push_back(b);
         }
+  // always present: files whose authenticated region is longer than the hash refill buffer and not a multiple of
+  // 64 bytes, so that the tag also has to protect bytes that arrive through a refill
+  for (int ti = 0; ti < 3; ti++) {
+    vh::Rng r(vh::mix(cx.seed, 0xB16F11E + ti));
+    Base b;
+    b.ep.cmode = (int)((cx.seed + ti) % 5); b.ep.hmode = (int)((cx.seed + 2 * ti) % 3); b.ep.T = Ts[ti];
+    r.fill(b.ep.key, 16);
+    b.ep.seed = ops::gen_seed(r);
+    b.n = 6 * c + 9 + 16 * (size_t)r.below(3);
+    b.pseed = r.next();
+    b.P = ops::gen_plain(b.n, b.pseed);
+    ops::Result e = ops::encrypt(b.P, b.ep);
+    if (!e.ret) { fprintf(stderr, "harness: could not create a genuine file\n"); exit(2); }
+    b.F = e.out;
+    out.push_back(b);
+  }
   return out;
 }
 
